@@ -250,7 +250,18 @@ func (h *history) newIndex() {
 		return
 	}
 	c := cols[h.rng.Intn(len(cols))]
-	ix := IndexSpec{Name: fmt.Sprintf("ix%d_%s", h.stats["idx_created"], c.Name), Col: c.Name, P: h.g.pred(c)} // names are never reused
+	ix := IndexSpec{Name: fmt.Sprintf("ix%d_%s", h.stats["idx_created"], c.Name), Col: c.Name, P: h.g.pred(c)} // names are not reused after a drop
+	if h.rng.Intn(8) == 0 {
+		// ... but an index may be re-defined under its name while it is registered (same column, new rule):
+		// With(name) then follows the new rule
+		for _, old := range h.wd.M.Idx {
+			if old.Col == c.Name {
+				ix.Name = old.Name
+				h.stats["idx_redefined_under_their_name"]++
+				break
+			}
+		}
+	}
 	if err := h.wd.createIndex(ix); err != nil {
 		panic(err)
 	}
@@ -1431,6 +1442,15 @@ func (h *history) genChain() []filterStep {
 				continue
 			}
 			k := c.Kind
+			if h.cfg.Pool == "agg" && wideCol(c.Name) {
+				// predicates that tell neighbouring 64-bit values apart
+				if k == KInt64 {
+					chain = append(chain, filterStep{Op: "withint", Col: c.Name, P: Pred{Op: []string{"int<", "int>="}[h.rng.Intn(2)], I: wideI[h.rng.Intn(len(wideI))]}})
+				} else {
+					chain = append(chain, filterStep{Op: "withuint", Col: c.Name, P: Pred{Op: []string{"uint>", "uint<="}[h.rng.Intn(2)], U: wideU[h.rng.Intn(len(wideU))]}})
+				}
+				continue
+			}
 			switch {
 			case k.Numeric():
 				switch h.rng.Intn(4) {
@@ -1715,7 +1735,7 @@ func (h *history) filterCheck() {
 	chain := h.genChain()
 	var numCols []ColSpec
 	for _, c := range m.Cols {
-		if c.Kind.Numeric() && c.Name != "expire" {
+		if c.Kind.Numeric() && c.Name != "expire" && !wideCol(c.Name) { // (sums of the wide columns are not exact in float64)
 			numCols = append(numCols, c)
 		}
 	}
